@@ -88,8 +88,10 @@ func boxWidth(s *Scenario, runs []c17.Run, fs []*canvas.FontFace, indent float64
 		w = math.Max(0.7*oneLine, long+0.05)
 	case 5:
 		w = oneLine
-	default:
+	case 6:
 		w = oneLine + 10
+	default: // 7..10: absolute narrow widths 20..23 mm (justified paragraphs)
+		w = float64(13 + s.WSel)
 	}
 	if w < 2 {
 		w = 2
@@ -106,6 +108,7 @@ type Span struct {
 	W    int   `json:"w"`
 	Asc  int   `json:"asc"`
 	Desc int   `json:"desc"`
+	Lv   int   `json:"lv"` // bidi embedding level
 	T    []int `json:"t"`
 	G    []int `json:"g"`
 }
@@ -136,6 +139,7 @@ type Event struct {
 	Bounds  [4]int   `json:"bounds"`
 	Heights [2]int   `json:"heights"`
 	KP      KP       `json:"kp"`
+	Bidi    bool     `json:"bidi"` // mixed-direction text: the spec evaluates only the direction-independent clauses
 }
 
 var natCache sync.Map
@@ -197,6 +201,11 @@ func layout(s *Scenario, k int) (*observed, error) {
 		full += r.Text
 	}
 	ev := &Event{K: k, Text: runes(full), Width: qi(width), Indent: qi(indent), Align: s.Align, Lines: []LineEv{}}
+	for _, t := range s.Toks {
+		if t == "heb" {
+			ev.Bidi = true
+		}
+	}
 	// glue is stretched in whole font units
 	for _, f := range fs {
 		if u := int(math.Ceil(f.MmPerEm / unit)); u > ev.U {
@@ -228,7 +237,7 @@ func layout(s *Scenario, k int) (*observed, error) {
 			adj := 0.0
 			for _, sp := range spans {
 				m := sp.Face.Metrics()
-				e := Span{X: qi(sp.X), W: qi(sp.Width), Asc: qi(m.Ascent), Desc: qi(m.Descent), T: runes(sp.Text), G: []int{}}
+				e := Span{X: qi(sp.X), W: qi(sp.Width), Asc: qi(m.Ascent), Desc: qi(m.Descent), Lv: sp.Level, T: runes(sp.Text), G: []int{}}
 				for _, g := range sp.Glyphs {
 					e.G = append(e.G, int(g.Text))
 				}
@@ -262,6 +271,10 @@ func layout(s *Scenario, k int) (*observed, error) {
 		res.hung = true
 	}
 	if res.panic != "" || res.hung {
+		return res, nil
+	}
+	if ev.Bidi {
+		ev.KP = KP{OK: false, Brk: []int{}}
 		return res, nil
 	}
 	// the item list and breakpoints of the same text, by the library's own builder and line breaker
@@ -323,8 +336,11 @@ func jcfg(check bool) string {
 }
 
 func toMismatches(x *explain, ev *Event) []core.Mismatch {
-	rep, spnl := false, false
+	rep, spnl, emb := false, false, false
 	for _, f := range x.Feat {
+		if f == "startsembedded" {
+			emb = true
+		}
 		if f == "repspace" {
 			rep = true
 		}
@@ -337,6 +353,9 @@ func toMismatches(x *explain, ev *Event) []core.Mismatch {
 		sig := f
 		if f == "newline-no-new-line" && ev.Ovf {
 			sig = "blank-line-lost-overflow"
+		}
+		if emb && (f == "span-overlap" || f == "outside-box") {
+			sig = f + "-bidi-line-starts-embedded"
 		}
 		if f == "align-right" || f == "align-centre" {
 			if spnl {
@@ -417,9 +436,9 @@ func gcfg(mode string, ntok, nrand, maxw int, indents string, mc bool) string {
 }
 
 func (d Driver) Run(c *core.Ctx) error {
-	c.Rule = "scenario = (token list over {on, women, new(second face), space, no-break space, ideographic space, soft hyphen, hyphen, newline}, width selector relative to the measured text, alignment L/R/C/J, indent 0/5 mm) laid out by RichText.ToText with DejaVuSerif/EBGaramond 12 pt; every layout is one event judged by Trace_Layout. non-trivial = the layout has at least two lines and at least one visible character; distinct by scenario"
+	c.Rule = "scenario = (token list over {on, women, wo+soft hyphen+men, new / ne+soft hyphen+w (second face), space, no-break space, ideographic space, hyphen, newline}, width selector relative to the measured text, alignment L/R/C/J, indent 0/5 mm), plus right-to-left paragraphs with embedded left-to-right words and narrow justified paragraphs of 9..14 words at 20..23 mm, laid out by RichText.ToText with DejaVuSerif/EBGaramond 12 pt; every layout is one event judged by Trace_Layout. non-trivial = the layout has at least two lines and at least one visible character; distinct by scenario"
 	c.Assumptions = []string{
-		"left-to-right text only (no mixed direction), horizontal writing mode, height 0 (unlimited), vertical alignment Top/Center/Bottom and line stretch 0/0.25 derived from the scenario",
+		"mixed-direction text (right-to-left paragraphs with embedded left-to-right words; Hebrew letters are .notdef glyphs in the bundled fonts) is only checked for stacking, pairwise disjoint spans, inside-the-box and Bounds/Heights; everything else uses left-to-right text; horizontal writing mode, height 0 (unlimited), vertical alignment Top/Center/Bottom and line stretch 0/0.25 derived from the scenario",
 		"observed lengths are quantised to 1e-3 mm; alignment tolerances 2e-3 mm, justified lines (glue glyphs+1)*size/unitsPerEm + 2e-3 mm (glue is stretched in whole font units)",
 		"white space dropped next to a line break may precede or follow an explicit newline (the library also drops spaces that follow a newline)",
 		"a soft hyphen directly followed by white space or the end of the text is not decided (break at the hyphen or at the space)",
@@ -520,6 +539,14 @@ func (d Driver) Run(c *core.Ctx) error {
 	}
 	for nt := 4; nt <= 9; nt++ {
 		run(tlc.Opts{Module: "Layout", Config: gcfg("rand", nt, c.Pick(80, 400), maxw, "{0, 1}", false), Seed: c.Seed + int64(nt)})
+	}
+	// mixed direction: right-to-left paragraphs with embedded left-to-right words in two faces (exhaustive)
+	for nt := 4; nt <= c.Pick(5, 7); nt++ {
+		run(tlc.Opts{Module: "Layout", Config: gcfg("bidi", nt, 0, maxw, "{0}", false)})
+	}
+	// narrow justified paragraphs of 9..14 words at 20..23 mm: lines that must be shrunk, many fitness classes in play
+	for _, nt := range []int{9, 11, 12, 14} {
+		run(tlc.Opts{Module: "Layout", Config: gcfg("para", nt, c.Pick(500, 5000), maxw, "{0}", false), Seed: c.Seed + int64(100+nt)})
 	}
 	wg.Wait()
 	c.Count(n, nontrivial, 0)
